@@ -115,7 +115,7 @@ impl Cluster {
         cmd.env_clear()
             .env("PATH", std::env::var("PATH").unwrap_or_default())
             .env("HOME", n.dir.to_string_lossy().to_string())
-            .env("RUST_LOG", "warn")
+            .env("RUST_LOG", std::env::var("RNV_NODE_LOG").unwrap_or_else(|_| "warn".to_string()))
             .env("RUST_BACKTRACE", "0")
             .env("RNACOS_DATA_DIR", n.dir.join("data").to_string_lossy().to_string())
             .env("RNACOS_HTTP_PORT", n.http.to_string())
@@ -274,6 +274,50 @@ impl Cluster {
             }
         }
         Err(last)
+    }
+
+    /// Bring up all nodes one after the other: the next node is started only when the previous one has become
+    /// a voting member (concurrent join requests make the leader attempt overlapping membership changes, whose
+    /// errors join_node ignores - the later joiner then stays NonVoter). A join that got lost is repeated once
+    /// by restarting the joiner (it re-sends the request while its log is still empty).
+    pub fn form(&mut self) -> Result<(), String> {
+        self.start_node(0)?;
+        self.wait_http(0, 30)?;
+        self.wait_quiescent(30)?;
+        for i in 1..self.nodes.len() {
+            let mut joined = false;
+            for attempt in 0..2 {
+                if attempt > 0 {
+                    self.kill(i);
+                }
+                self.start_node(i)?;
+                self.wait_http(i, 30)?;
+                let t0 = Instant::now();
+                let mut n = 0;
+                while t0.elapsed() < Duration::from_secs(30) {
+                    n += 1;
+                    let _ = self.publish(0, "", "DEFAULT_GROUP", "zz-nudge", &format!("f{}", n));
+                    let id = self.nodes[i].id;
+                    let member = self
+                        .metrics(0)
+                        .and_then(|m| m["membership_config"]["members"].as_array().map(|a| a.iter().any(|x| x.as_u64() == Some(id))))
+                        .unwrap_or(false);
+                    let follower = self.metrics(i).map(|m| m["state"] == "Follower").unwrap_or(false);
+                    if member && follower {
+                        joined = true;
+                        break;
+                    }
+                    std::thread::sleep(Duration::from_millis(300));
+                }
+                if joined {
+                    break;
+                }
+            }
+            if !joined {
+                return Err(format!("node {} did not become a voting member; log: {}", i + 1, self.log_tail(i)));
+            }
+        }
+        self.wait_quiescent_nudged(45, 0).map(|_| ())
     }
 
     pub fn leader(&mut self) -> Option<usize> {
